@@ -30,7 +30,7 @@ POST = [None, ["check", "a", 2], ["sym"]]
 ATOMS = [None, ["check", "a", 1], ["check", "a", 2], ["sym"]]
 
 QUICK_KINDS = ["new_tg", "new_bt", "old_tg", "none", "new_unann", "dataclass", "gen", "coro", "recurse"]
-QUICK_EXITS = ["return", "raise_exc", "raise_base", "bad_args", "bad_return"]
+QUICK_EXITS = ["return", "raise_exc", "raise_base", "bad_args", "bad_return", "nonbinding"]
 
 
 def compounds(tier):
